@@ -155,6 +155,12 @@ def check_roundtrip(tree, td):
     from phyclone.tree import Tree
 
     p = []
+    d = tree.to_dict()
+    for k, lst in d["node_data"].items():
+        if lst is tree._data.get(k):
+            p.append("roundtrip(dict): the dictionary shares the data list of %r with the live tree (later edits of the tree would change a recorded entry)" % (k,))
+    if d["node_idx"] is tree._node_indices or d["node_idx_rev"] is tree._node_indices_rev:
+        p.append("roundtrip(dict): the dictionary shares the name/index maps with the live tree")
     for how, back in (("dict", Tree.from_dict(tree.to_dict())), ("pickle", Tree.from_dict(pickle.loads(pickle.dumps(tree.to_dict()))))):
         if not (back == tree and hash(back) == hash(tree)):
             p.append("roundtrip(%s): clades/outliers differ" % how)
@@ -241,6 +247,8 @@ def operations(tree, unplaced, data_by_idx, outliers_ok):
                 return t, unplaced
 
             yield "prune subtree at %s, regraft under %s, update()" % (v, target), prg_u
+    for dp in list(tree.outliers):
+        yield "take dp%d out of the outliers" % dp.idx, (lambda t, dp=dp: (t.remove_data_point_from_outliers(dp), (t, unplaced | {dp.idx}))[1])
     yield "relabel_nodes", (lambda t: (t.relabel_nodes(), (t, unplaced))[1])
     from phyclone.tree import Tree
 
@@ -264,6 +272,7 @@ def explore(n_points, depth, dims=1, grid=3, outliers_ok=True, seed=0, max_state
         for tree, unplaced, hist in frontier:
             for desc, fn in operations(tree, unplaced, data_by_idx, outliers_ok):
                 t = tree.copy()
+                snap, snap_key = t.to_dict(), T.tree_key(t)
                 try:
                     t2, un2 = fn(t)
                 except Exception as e:  # noqa
@@ -271,7 +280,15 @@ def explore(n_points, depth, dims=1, grid=3, outliers_ok=True, seed=0, max_state
                     continue
                 n_ops += 1
                 expected = set(range(n_points)) - set(un2)
-                ps = check_wf(t2, expected) + check_fresh(t2) + check_densities(t2, data_by_idx, td) + check_roundtrip(t2, td)
+                ps = []
+                try:
+                    from phyclone.tree import Tree as _Tree
+
+                    if T.tree_key(_Tree.from_dict(snap)) != snap_key:
+                        ps.append("roundtrip(dict): a dictionary taken before the operation no longer restores to the tree it was taken from")
+                except Exception as e:  # noqa
+                    ps.append("roundtrip(dict): a dictionary taken before the operation cannot be restored after it: %r" % (e,))
+                ps += check_wf(t2, expected) + check_fresh(t2) + check_densities(t2, data_by_idx, td) + check_roundtrip(t2, td)
                 if ps:
                     problems.append({"history": hist + [desc], "problem": "; ".join(ps[:3])})
                     if len(problems) >= stop_after:
